@@ -23,7 +23,12 @@ def _ev(n, env):
     if k == "lit":
         return n["v"] if n.get("lk") in ("int", "bool") else None
     if k == "path" and n.get("r") == "local":
-        return env.get(n["hid"])
+        if n["hid"] in env:
+            return env[n["hid"]]
+        l = (env.get("__lets__") or {}).get(n["hid"])
+        if l is not None and env.get("__depth__", 0) < 6:
+            return _ev(l["init"], dict(env, __depth__=env.get("__depth__", 0) + 1))
+        return None
     if k in ("cast", "deref", "ref"):
         return _ev(n["e"], env)
     if k == "un":
@@ -77,57 +82,38 @@ def rules(ck, P, rule="R-PM-TILEID"):
         return
     enc, dec, rot = enc[0], dec[0], rot[0]
 
-    # ---- digit (encoder): the factor next to s*s in `d += ..`, as a function of the bit locals
-    xor = [y for y in ir.walk_nodes(enc["body"]) if y.get("k") == "bin" and y.get("op") in ("^", "|", "+") and (ir.strip(y).get("t") in ("u8", "i64", "u64", "u32", "i32")) and
-           len({z["hid"] for z in ir.walk_nodes(y) if z.get("k") == "path" and z.get("r") == "local" and (z.get("t") == "u8")}) == 2]
-    addd = [y for y in ir.walk_nodes(enc["body"]) if y.get("k") == "assignop" and y.get("op", "").startswith("+") and any(ir.contains(y["r"], lambda z, x=x: z is x) for x in xor)]
-    ok_digit, why = False, "the digit expression over the two bit locals was not found"
-    bits = None
-    if len(addd) == 1:
-        x = next(x for x in xor if ir.contains(addd[0]["r"], lambda z: z is x))
-        # outermost such expression inside the += right-hand side
-        cands = [c for c in xor if ir.contains(addd[0]["r"], lambda z: z is c)]
-        x = max(cands, key=lambda c: sum(1 for _ in ir.walk_nodes(c)))
-        hs = sorted({z["hid"] for z in ir.walk_nodes(x) if z.get("k") == "path" and z.get("r") == "local" and z.get("t") == "u8"})
-        lets = _lets(enc)
-        # which local is rx (from the x coordinate) and which is ry: by the coordinate local their init masks
-        u32p = [x_ for p_ in enc["params"] for x_ in ir.pat_binds(p_) if x_["t"] == "u32"]
+    # ---- digit (encoder): the amount added to the position per level, as a function of the two bit locals and of s
+    lets = _lets(enc)
+    wle = [y for y in ir.walk_nodes(enc["body"]) if y.get("k") == "while"]
+    blets = [y for y in ir.walk_nodes(wle[0]["body"]) if y.get("k") == "let" and "init" in y and y["pat"].get("k") == "bind" and y["pat"].get("t") == "u8"] if len(wle) == 1 else []
+    u32p = [x_ for p_ in enc["params"] for x_ in ir.pat_binds(p_) if x_["t"] == "u32"]
 
-        def origin(h, depth=0):
-            """'x' / 'y' if the local derives (through lets) from the first / second u32 parameter"""
-            if depth > 5:
-                return None
-            if len(u32p) == 2 and h == u32p[0]["hid"]:
-                return "x"
-            if len(u32p) == 2 and h == u32p[1]["hid"]:
-                return "y"
-            i = lets.get(h, {}).get("init")
-            for z in ir.walk_nodes(i or {}):
-                if z.get("k") == "path" and z.get("r") == "local" and z["hid"] != h:
-                    o = origin(z["hid"], depth + 1)
-                    if o:
-                        return o
+    def origin(h, depth=0):
+        """'x' / 'y' if the local derives (through lets) from the first / second u32 parameter"""
+        if depth > 5:
             return None
-
-        def src(h):
-            return origin(h)
-        roles = {src(h): h for h in hs}
-        if set(roles) == {"x", "y"}:
-            bits = (roles["x"], roles["y"])
-            tab = {(rx, ry): _ev(x, {roles["x"]: rx, roles["y"]: ry}) for rx in (0, 1) for ry in (0, 1)}
-            ok_digit = tab == SPEC_DIGIT
-            why = "digit table is %s, the Hilbert order is %s" % (tab, SPEC_DIGIT)
-            # the bits are taken with the current s: (t & s) > 0
-            for role, h in roles.items():
-                i = lets[h]["init"]
-                ok_bit = ir.contains(i, lambda z: z.get("k") == "bin" and z.get("op") == "&") and _ev(i, {}) is None
-                ok_digit = ok_digit and ok_bit
-            # weight s*s
-            mul = [z for z in ir.walk_nodes(addd[0]["r"]) if z.get("k") == "bin" and z.get("op") == "*"]
-            sq = any(ir.local_hid(ir.strip(z["l"])) is not None and ir.local_hid(ir.strip(z["l"])) == ir.local_hid(ir.strip(z["r"])) for z in mul)
-            ok_digit = ok_digit and sq
-            if not sq:
-                why += "; the digit is not weighted with s*s"
+        if len(u32p) == 2 and h == u32p[0]["hid"]:
+            return "x"
+        if len(u32p) == 2 and h == u32p[1]["hid"]:
+            return "y"
+        i_ = lets.get(h, {}).get("init")
+        for z in ir.walk_nodes(i_ or {}):
+            if z.get("k") == "path" and z.get("r") == "local" and z["hid"] != h:
+                o = origin(z["hid"], depth + 1)
+                if o:
+                    return o
+        return None
+    roles = {origin(y["pat"]["hid"]): y["pat"]["hid"] for y in blets}
+    sc = ir.local_hid(ir.strip(ir.unparen(ir.strip(wle[0]["c"])).get("l", {}))) if len(wle) == 1 and ir.unparen(ir.strip(wle[0]["c"])).get("k") == "bin" else None
+    addd = [y for y in ir.walk_nodes(wle[0]["body"]) if y.get("k") == "assignop" and y.get("op", "").startswith("+") and ir.local_hid(ir.strip(y["l"])) != sc] if len(wle) == 1 else []
+    ok_digit, why = False, "the two bit locals / the position accumulator of the encoder loop were not found"
+    bits = None
+    if len(blets) == 2 and set(roles) == {"x", "y"} and len(addd) == 1 and sc is not None:
+        bits = (roles["x"], roles["y"])
+        tab1 = {(rx, ry): _ev(addd[0]["r"], {roles["x"]: rx, roles["y"]: ry, sc: 1, "__lets__": lets}) for rx in (0, 1) for ry in (0, 1)}
+        tab4 = {(rx, ry): _ev(addd[0]["r"], {roles["x"]: rx, roles["y"]: ry, sc: 4, "__lets__": lets}) for rx in (0, 1) for ry in (0, 1)}
+        ok_digit = tab1 == SPEC_DIGIT and tab4 == {k: 16 * v for k, v in SPEC_DIGIT.items()}
+        why = "amount added for s = 1 is %s (Hilbert order: %s), for s = 4 it is %s (must be 16 times the digit)" % (tab1, SPEC_DIGIT, tab4)
     ck.check(ok_digit, rule, enc["q"] + "|digit", "per level the encoder adds s*s*digit with digit(rx, ry) = Hilbert order 0:(0,0) 1:(0,1) 2:(1,1) 3:(1,0), bits taken with (coord & s)",
              "the quadrant digit of coord_to_tile_id is wrong (%s): tile ids do not follow the PMTiles Hilbert order" % why, ir.loc(enc))
 
